@@ -288,8 +288,23 @@ def F19():
     return None
 
 
+def F20():
+    # nine-handed razz, nobody folds: sixth and seventh street are both dealt as one shared card; both must be on the board
+    from pokerkit import FixedLimitRazz, Automation
+    s = FixedLimitRazz.create_state(tuple(Automation), True, 0, 1, 2, 4, 200, 9)
+    s.post_bring_in()
+    guard = 0
+    while s.status and guard < 200:
+        guard += 1
+        s.check_or_call()
+    board = list(s.get_board_cards(0))
+    if len(board) != 2 or s.board_count != 1:
+        return f'after two streets dealt as shared cards the only board holds {board} (board_cards {s.board_cards})'
+    return None
+
+
 if __name__ == '__main__':
-    names = sys.argv[1:] or ['F1', 'F2', 'F3', 'F4', 'F5', 'F6', 'F7', 'F8', 'F9', 'F10', 'F14', 'F15', 'F16', 'F17', 'F18', 'F19']
+    names = sys.argv[1:] or ['F1', 'F2', 'F3', 'F4', 'F5', 'F6', 'F7', 'F8', 'F9', 'F10', 'F14', 'F15', 'F16', 'F17', 'F18', 'F19', 'F20']
     bad = 0
     for n in names:
         try:
